@@ -15,7 +15,7 @@ func lemma_C11_esn_decode(tt uint8, id uint16, present bool, format uint8, at, a
 	}
 }
 
-func lemma_C11_esn_roundtrip(enable bool) {
+func lemma_C11_esn_roundtrip(enable bool, jt uint8, jid uint16, jp bool, jf uint8, jat, jav uint16) {
 	name := String_ESN_DISABLE
 	if enable {
 		name = String_ESN_ENABLE
@@ -30,4 +30,9 @@ func lemma_C11_esn_roundtrip(enable bool) {
 	verifAssert(tr.TransformType == 5 && tr.TransformID == id && !tr.AttributePresent, "C11/esn/transform-fields")
 	b, err2 := DecodeTransform(tr)
 	verifAssert(err2 == nil && b.GetNeedESN() == enable, "C11/esn/transform-decodes-to-the-same-value")
+	// whatever the caller then does to the transform it was handed, a later conversion
+	// of the same algorithm is unaffected: every conversion returns its own object
+	tr.TransformType, tr.TransformID, tr.AttributePresent, tr.AttributeFormat, tr.AttributeType, tr.AttributeValue = jt, jid, jp, jf, jat, jav
+	tr2 := ToTransform(a)
+	verifAssert(tr2.TransformType == 5 && tr2.TransformID == id && !tr2.AttributePresent, "C11/esn/conversion-unaffected-by-edits-of-earlier-results")
 }
